@@ -1,0 +1,20 @@
+//go:build verif
+
+// Hooks for the verification harness in /verif (suite `retry`, property C20). Compiled only with
+// `-tags verif`; thin exported wrappers around unexported identifiers, no behaviour of their own.
+package apk
+
+import (
+	"context"
+	"net/http"
+)
+
+// VerifNewRangeRetryTransport calls newRangeRetryTransport.
+func VerifNewRangeRetryTransport(ctx context.Context, client *http.Client) http.RoundTripper {
+	return newRangeRetryTransport(ctx, client)
+}
+
+// VerifFetchRepositoryIndex calls fetchRepositoryIndex with the given client.
+func VerifFetchRepositoryIndex(ctx context.Context, u string, etag string, client *http.Client) ([]byte, error) {
+	return fetchRepositoryIndex(ctx, u, etag, &indexOpts{httpClient: client})
+}
